@@ -312,6 +312,53 @@ static void cloned_thread_trial(void) {
   vh_count("cloned_thread_trials");
 }
 
+/* ---------- values one thread puts into the storage of a Thread object it is about to start ----------
+** set(thread, key, value) before call(thread, ...) is how a thread is given its initial thread-local values.  Until
+** the thread runs they belong to the giver, whose collections must keep them alive through the Thread object (held on
+** the giver's stack or registered as a root); the started thread then finds them under the key.  The giver allocates
+** nothing while the threads run (its collector would walk a storage table that is in use). */
+static volatile int64_t gift_id[4], gift_seen[4];
+static var gift_main(var args) {
+  int k = (int)c_int(get(args, $I(0)));
+  mo_thread_index = 30 + k;
+  var exc = NULL; var g = NULL;
+  try { g = get(current(Thread), $S("gift")); } catch (e) { exc = e; }
+  if (exc != NULL || g == NULL) { gift_seen[k] = -2; }
+  else if (mo_state[gift_id[k]] != MO_CONSTRUCTED) { gift_seen[k] = -1; }
+  else { gift_seen[k] = ((struct PNode*)g)->id; }
+  for (int i = 0; i < 500; i++) { var x = new(PNode, $I(next_probe_id())); x = NULL; }       /* its own collections */
+  if (gift_seen[k] > 0 && (mo_state[gift_id[k]] != MO_CONSTRUCTED || ((struct PNode*)g)->id != gift_id[k])) { gift_seen[k] = -3; }
+  return NULL;
+}
+static void __attribute__((noinline)) give(var t, int k) {
+  gift_id[k] = next_probe_id();
+  set(t, $S("gift"), new(PNode, $I(gift_id[k])));
+}
+static void __attribute__((noinline)) churn(int n) { for (int i = 0; i < n; i++) { var g = new(PNode, $I(next_probe_id())); g = NULL; } }
+static void gift_trial(void) {
+  var fn = $(Function, gift_main);
+  volatile var t[4]; var ix[4];
+  for (int k = 0; k < 4; k++) { t[k] = (k % 2) ? (var)new_root(Thread, fn) : (var)new(Thread, fn); ix[k] = new_raw(Int, $I(k)); gift_seen[k] = 0; }
+  for (int k = 0; k < 4; k++) { give(t[k], k); }
+  churn(4000);
+  vh_evals(4);
+  for (int k = 0; k < 4; k++) {
+    if (mo_state[gift_id[k]] != MO_CONSTRUCTED) {
+      vh_violation("C13:isolation:value-given-to-a-thread-finalised-before-it-started", "the value stored in the storage of Thread object %d (%s) is in ledger state %d after collections of the giving thread", k, (k % 2) ? "a root" : "held on the stack", mo_state[gift_id[k]]);
+      for (int j = 0; j < 4; j++) { if (t[j] && (j % 2)) { del_root(t[j]); } del_raw(ix[j]); }
+      return;
+    }
+  }
+  for (int k = 0; k < 4; k++) { call(t[k], ix[k]); }
+  for (int k = 0; k < 4; k++) { join(t[k]); }
+  for (int k = 0; k < 4; k++) {
+    vh_eval();
+    if (gift_seen[k] != gift_id[k]) { vh_violation("C13:isolation:thread-does-not-find-the-value-it-was-given", "thread %d looked its initial thread-local value up and got %" PRId64 " (its id is %" PRId64 "; -1 finalised, -2 missing, -3 lost while it ran)", k, (int64_t)gift_seen[k], (int64_t)gift_id[k]); }
+  }
+  for (int k = 0; k < 4; k++) { rem(t[k], $S("gift")); if (k % 2) { del_root(t[k]); } t[k] = NULL; del_raw(ix[k]); }
+  vh_count_n("threads_given_an_initial_thread_local_value", 4);
+}
+
 static void one_trial(vh_rng* r, int nthreads) {
   wl_ops = 60 + (int)vh_below(r, vh.thorough ? 200 : 100);
   sections_per_thread = 50 + (int)vh_below(r, 150);
@@ -373,6 +420,7 @@ static void one_trial(vh_rng* r, int nthreads) {
   vh_count_n("trylock_sections_that_had_to_wait", (uint64_t)contended);
   del_raw(the_mutex);
   cloned_thread_trial();
+  gift_trial();
   /* join publishes */
   memset(RES, 0, sizeof RES);
   run_threads(nthreads, 2);
